@@ -13,7 +13,7 @@ import ast
 
 from ..core import rule, AnalysisError
 from ..engine import rx
-from ..engine.facts import dotted, const, src, walk_func, str_value
+from ..engine.facts import dotted, const, src, walk_func, str_value, ancestors
 from ..engine import pattern as P
 from .common import calls, access_paths, pn
 
@@ -278,6 +278,29 @@ def idents_fields(ctx):
     if dv and bind and enter:
         ctx.check(dv[0].lineno < bind[0].lineno and dv[0].lineno < enter[0].lineno, "defaults-in-enclosing-scope", db.where(dv[0]),
                   "parameter defaults are scanned after the function's own parameters were bound: a default that reads a context name equal to a parameter name (`def f(v, sep=sep)`) is not fetched from the context", "defaults scanned before the parameters are bound")
+    # the function body is scanned with a set of locals of its own: a fresh set is installed on every path before the body is visited
+    from ..engine import cfg as cfgmod
+    g_ = cfgmod.function_cfg(vf)
+    fresh = [n for n in walk_func(vf) if isinstance(n, ast.Assign) and dotted(n.targets[0]) == "self.local_ident_stack" and (
+        (isinstance(n.value, ast.Call) and isinstance(n.value.func, ast.Attribute) and n.value.func.attr in ("union", "copy", "difference", "intersection"))
+        or (isinstance(n.value, ast.Call) and dotted(n.value.func) in ("set", "frozenset"))
+        or (isinstance(n.value, ast.BinOp) and isinstance(n.value.op, (ast.BitOr, ast.Sub, ast.BitAnd)))
+        or isinstance(n.value, (ast.Set, ast.SetComp)))]
+    fresh = [n for n in fresh if enter and n.lineno >= min(e_.lineno for e_ in enter) - 30]
+    body_visits = [c_ for c_ in walk_func(vf) if isinstance(c_, ast.Call) and dotted(c_.func) == "self.visit" and c_.args and any(isinstance(x_, ast.Attribute) and x_.attr == "body" for x_ in ast.walk(c_.args[0]))]
+    body_visits += [l_ for l_ in walk_func(vf) if isinstance(l_, ast.For) and isinstance(l_.iter, ast.Attribute) and l_.iter.attr == "body"]
+    fnodes = [x_ for n in fresh for x_ in g_.nodes_of(n)]
+    okf = bool(fresh) and bool(body_visits)
+    witness = None
+    for bv in body_visits:
+        st_ = bv if isinstance(bv, ast.For) else None
+        from ..engine.facts import enclosing_stmt as _es
+        tn = g_.nodes_of(st_ if st_ is not None else _es(bv))
+        p_ = g_.path_avoiding(g_.entry, tn, fnodes, kinds=("n",)) if tn else None
+        if p_:
+            okf = False
+            witness = g_.fmt_path(p_)
+    ctx.check(okf, "fresh-scope", db.where(vf), "a path reaches the scan of the function body without a fresh set of locals having been installed (%s): names the body binds (comprehension variables, assignments) are added to the enclosing scope's set and later reads of context variables with those names are not fetched" % witness, "fresh local set dominates the body scan")
     # scan state saved on entry is restored from the saved value on exit
     for attr in ("in_function", "local_ident_stack"):
         saves = [n for n in walk_func(vf) if isinstance(n, ast.Assign) and isinstance(n.targets[0], ast.Name) and dotted(n.value) == "self." + attr]
@@ -362,10 +385,25 @@ def _features(fn, db):
             f.add("comment")
         if "%s" in p:
             f.add("which-quote-opened")
-    t = src(fn)
-    if "state[triplequoted] = m.group(0)" in t:
+        bare = p.replace('\\"\\"\\"', "").replace("\\'\\'\\'", "").replace('"""', "").replace("'''", "")
+        if '"' in bare or "'" in bare:
+            f.add("ordinary-quote")
+    if P.has(fn, "state[triplequoted] = $m.group(0)") or P.has(fn, "self.triplequoted = $m.group($i)"):
         f.add("which-quote-opened")
     return f, pats
+
+
+def _continuation_flag_writes(fn):
+    """(statement, derived-from-the-line-end-test?) for every write of the backslash-continuation flag in a scanner"""
+    out = []
+    for s in ast.walk(fn):
+        if isinstance(s, ast.Assign) and src(s.targets[0]) in ("state[backslashed]", "self.backslashed"):
+            v = s.value
+            direct = any(isinstance(c, ast.Call) and dotted(c.func) == "re.search" and str_value(c.args[0]) is not None and str_value(c.args[0]).replace(" ", "") == "\\\\$" for c in ast.walk(v))
+            guard = [a for a in ancestors(s) if isinstance(a, ast.If)]
+            guarded = bool(guard) and any(isinstance(c, ast.Call) and dotted(c.func) == "re.search" and str_value(c.args[0]) is not None and str_value(c.args[0]).replace(" ", "") == "\\\\$" for c in ast.walk(guard[0].test)) and isinstance(v, ast.Constant)
+            out.append((s, direct or guarded))
+    return out
 
 
 @rule("C19.remargin-siblings", min_instances=2)
@@ -380,6 +418,12 @@ def remargin_siblings(ctx):
     ctx.note("printer_features", sorted(fb))
     ctx.check({"backslash-continuation", "triple-quote"} <= fa, "lexer-side", db.where(a), "adjust_whitespace's scanner tracks %s" % sorted(fa), sorted(fa))
     ctx.check({"backslash-continuation", "triple-quote"} <= fb, "printer-side", db.where(b), "the printer's scanner tracks %s" % sorted(fb), sorted(fb))
+    for side, fn_, feats in (("lexer", a, fa), ("printer", b, fb)):
+        ws = _continuation_flag_writes(fn_)
+        other = [s_ for s_, ok_ in ws if not ok_]
+        ctx.check(bool(ws) and (not other or "ordinary-quote" in feats), "continuation-flag:" + side, db.where(other[0]) if other else db.where(fn_),
+                  "the %s-side scanner changes the backslash-continuation flag by something else than the line ending in a backslash (`%s`) although it does not recognise ordinary quoted strings: a `#` inside a '...' string that is continued with a backslash is taken for a comment, the next line is re-margined and the string's content changes" % (side, src(other[0]) if other else ""),
+                  "continuation flag follows the line end only (%d write(s))" % len(ws))
     shared_helper = any(isinstance(c, ast.Call) and dotted(c.func) in ("in_multi_line", "_in_multi_line", "self._multi_line_scanner") for c in ast.walk(b)) and False
     missing = sorted(fa - fb)
     if missing:
